@@ -56,7 +56,7 @@ ASSUMPTIONS = [
     'known findings (known_findings.json) are still exercised at their own level, but the construct is not embedded in larger '
     'messages (rejected draws are counted) so that the search continues behind them',
 ]
-MIN_EVALUATIONS = {'quick': 15000, 'thorough': 300000}
+MIN_EVALUATIONS = {'quick': 12000, 'thorough': 250000}
 
 
 # known findings -> the construct the generator keeps out of composites (see c01gen.AVOID)
@@ -169,12 +169,12 @@ def run(tier, seed):
         'width-boundary values x plain/padded/single EPATH and inside a Read Tag request; symbolic lengths {1..4,253..255}; '
         'port {1,2,14,15,16,255,256,65535} x numeric/address links; status x 0..4 extended words')
     if thorough:
-        plan = [('element', 0, 4000), ('service', 0, 4000), ('frame', 0, 4000), ('element', 1, 800), ('service', 1, 800),
-                ('frame', 1, 800), ('ambiguous', 0, 300)]
+        plan = [('element', 0, 2500), ('service', 0, 2500), ('frame', 0, 2500), ('element', 1, 500), ('service', 1, 500),
+                ('frame', 1, 500), ('ambiguous', 0, 200)]
         shards = 32
     else:
-        plan = [('element', 0, 400), ('service', 0, 350), ('frame', 0, 300), ('element', 1, 80), ('service', 1, 80),
-                ('frame', 1, 80), ('ambiguous', 0, 30)]
+        plan = [('element', 0, 300), ('service', 0, 260), ('frame', 0, 220), ('element', 1, 60), ('service', 1, 60),
+                ('frame', 1, 60), ('ambiguous', 0, 20)]
         shards = 16
     common.parallel(shard, [(seed, i, plan, 1 if thorough else 0) for i in range(shards)], stats=stats)
     return stats
